@@ -546,9 +546,35 @@ type SysNode[T any] struct {
 func NewSysNode[T any](w *sysWorld, name string) *SysNode[T] {
 	local := &sysLocal{w: w, node: name, Sub: sysSub{w: w, node: name, Deep: sysDeep{w: w, node: name}}}
 	n := &SysNode[T]{Name: name, Local: local}
+	// while a notification is being delivered, can another goroutine enumerate, and what does it see?
+	probe := func(kind, id string) {
+		done := make(chan bool, 1)
+		go func() {
+			present := false
+			n.Reg.ForRemotes(func(rid string, _ sysRemote) error {
+				if rid == id {
+					present = true
+				}
+				return nil
+			})
+			done <- present
+		}()
+		select {
+		case p := <-done:
+			w.log(SysEvent{Node: name, Kind: "probe", Method: kind, Remote: id, Data: fmt.Sprint(p)})
+		case <-time.After(2 * time.Millisecond):
+			// the enumeration waits until the notification pair is complete
+		}
+	}
 	n.Reg = rpc.NewRegistry[sysRemote, T](local, &rpc.RegistryHooks{
-		OnClientConnect:    func(id string) { w.log(SysEvent{Node: name, Kind: "hook", Method: "connect", Remote: id}) },
-		OnClientDisconnect: func(id string) { w.log(SysEvent{Node: name, Kind: "hook", Method: "disconnect", Remote: id}) },
+		OnClientConnect: func(id string) {
+			w.log(SysEvent{Node: name, Kind: "hook", Method: "connect", Remote: id})
+			probe("connect", id)
+		},
+		OnClientDisconnect: func(id string) {
+			w.log(SysEvent{Node: name, Kind: "hook", Method: "disconnect", Remote: id})
+			probe("disconnect", id)
+		},
 	})
 	w.mu.Lock()
 	w.peers[name] = func(id string) (sysRemote, bool) {
